@@ -158,3 +158,90 @@ func VerifC19Run(i int, T int) {
 	default:
 	}
 }
+
+// ---- two calls at once under the symbolic scheduler --------------------------------------------------
+
+// c19CompileRender: what a caller can observe of one Compile call.
+func c19CompileRender(src string) string {
+	v, err := Compile(src)
+	if err != nil {
+		return "error"
+	}
+	return c19Render(v.Run("ab abc d aab"))
+}
+
+// VerifC19ParCompile: Compile(source i) and Compile(source j) run as two threads; every interleaving of
+// their synchronisation points is explored; each call must return what it returns alone.
+func VerifC19ParCompile(i int, j int) {
+	a, b := c19Sources[i], c19Sources[j]
+	vNote("source A", a)
+	vNote("source B", b)
+	seqA, seqB := c19CompileRender(a), c19CompileRender(b)
+	if !vSymbolic() {
+		c19Hammer("a Compile call running next to another Compile call returns a different program than the same call alone", func() bool { return c19CompileRender(a) == seqA }, func() bool { return c19CompileRender(b) == seqB })
+		return
+	}
+	resA, resB := "", ""
+	vPar(func() { resA = c19CompileRender(a) }, func() { resB = c19CompileRender(b) })
+	if resA != seqA || resB != seqB {
+		vFail("a Compile call running next to another Compile call returns a different program than the same call alone")
+	}
+}
+
+// VerifC19ParRun: two Run calls on one shared program (texts symbolic), and a Run next to a Compile.
+func VerifC19ParRun(i int, T int) {
+	src := c19Sources[i]
+	v, err := Compile(src)
+	if err != nil {
+		vFail("harness: source does not compile: " + src)
+	}
+	t1 := vText("text1", 0, T, true)
+	t2 := vText("text2", 0, T, true)
+	vNote("source", src)
+	vNote("text1", t1)
+	vNote("text2", t2)
+	seq1, seq2 := c19Render(v.Run(t1)), c19Render(v.Run(t2))
+	other := c19Sources[(i+1)%len(c19Sources)]
+	seqC := c19CompileRender(other)
+	if !vSymbolic() {
+		c19Hammer("a Run call running next to another Run call on the same program returns different matches than the same call alone", func() bool { return c19Render(v.Run(t1)) == seq1 }, func() bool { return c19Render(v.Run(t2)) == seq2 })
+		c19Hammer("a Compile call running next to a Run call returns a different program than the same call alone", func() bool { return c19Render(v.Run(t1)) == seq1 }, func() bool { return c19CompileRender(other) == seqC })
+		return
+	}
+	r1, r2, rc := "", "", ""
+	vPar(func() { r1 = c19Render(v.Run(t1)) }, func() { r2 = c19Render(v.Run(t2)); rc = c19CompileRender(other) })
+	if r1 != seq1 || r2 != seq2 {
+		vFail("a Run call running next to another Run call on the same program returns different matches than the same call alone")
+	}
+	if rc != seqC {
+		vFail("a Compile call running next to a Run call returns a different program than the same call alone")
+	}
+}
+
+// c19Hammer (native side): both closures from several goroutines at once; each must keep reporting true.
+func c19Hammer(msg string, f func() bool, g func() bool) {
+	var wg sync.WaitGroup
+	bad := make(chan string, 64)
+	for w := 0; w < 16; w++ {
+		wg.Add(1)
+		go func(w int) {
+			defer wg.Done()
+			for r := 0; r < 2000; r++ {
+				h := f
+				if (w+r)%2 == 1 {
+					h = g
+				}
+				if !h() {
+					bad <- msg
+					return
+				}
+			}
+		}(w)
+	}
+	wg.Wait()
+	select {
+	case msg := <-bad:
+		vFail(msg)
+	default:
+	}
+}
